@@ -1,2 +1,4 @@
 import Proofs.SegFactory
 import Proofs.Chain
+import Proofs.Pairing
+import Proofs.PairingOrder
